@@ -4,6 +4,7 @@ package c04
 
 import (
 	"fmt"
+	"github.com/notaryproject/notation-core-go/revocation/result"
 	"math/rand/v2"
 	"sort"
 	"strings"
@@ -25,6 +26,7 @@ type config struct {
 	WithST bool
 	Entry  string
 	NoEKU  bool // the checked leaf carries no extended key usage at all
+	CRL    bool // the checked leaf also names a distribution point that serves a clean, current CRL
 }
 
 func configs() []config {
@@ -34,9 +36,12 @@ func configs() []config {
 			for _, long := range []bool{false, true} {
 				for _, st := range []bool{false, true} {
 					for _, e := range []string{"validate", "ocsp"} {
-						out = append(out, config{l, ca, long, st, e, false})
+						out = append(out, config{l, ca, long, st, e, false, false})
 						if !long {
-							out = append(out, config{l, ca, long, st, e, true})
+							out = append(out, config{l, ca, long, st, e, true, false})
+						}
+						if !long && e == "validate" {
+							out = append(out, config{l, ca, long, st, e, false, true})
 						}
 					}
 				}
@@ -53,6 +58,10 @@ func scenario(c config, behs []string) *sims.Scenario {
 	sh.NoEKU = c.NoEKU
 	sc.Plans = make([]sims.CertPlan, c.Len)
 	sc.Plans[0] = sims.CertPlan{Shape: sh, OCSP: behs}
+	if c.CRL {
+		sc.Plans[0].Shape.CRL = []string{"http"}
+		sc.Plans[0].CRL = []string{"clean"}
+	}
 	return sc
 }
 
@@ -94,7 +103,11 @@ func judge(r *core.Run, sc *sims.Scenario, out *sims.Outcome) {
 			firstDecisive = cls
 		}
 	}
-	if got == "OK" && !goodSeen && !eitherSeen {
+	if len(sc.Plans[0].CRL) > 0 {
+		r.Count("with-clean-crl-behind", 1)
+	}
+	onOCSP := len(sc.Plans[0].CRL) == 0 || out.Results[0].RevocationMethod == result.RevocationMethodOCSP
+	if got == "OK" && onOCSP && !goodSeen && !eitherSeen {
 		last := "none"
 		if len(delivered) > 0 {
 			last = delivered[len(delivered)-1]
@@ -209,7 +222,8 @@ func run(r *core.Run) int {
 		core.Require{Counter: "result-Revoked", Why: "no execution ended Revoked"},
 		core.Require{Counter: "result-Unknown", Why: "no execution ended Unknown"},
 		core.Require{Counter: "req-GET", Why: "GET encoding never used"},
-		core.Require{Counter: "req-POST", Why: "POST encoding never used"})
+		core.Require{Counter: "req-POST", Why: "POST encoding never used"},
+		core.Require{Counter: "with-clean-crl-behind", Why: "no certificate with a clean CRL behind its responders"})
 }
 
 func pick(rng *rand.Rand, a []string) string { return a[rng.IntN(len(a))] }
